@@ -24,7 +24,7 @@ EVID = os.path.join(VERIF, "evidence")
 REPLAYS = os.path.join(EVID, "replays")
 GUARD = "mozilla_grcov_verif"
 NPROC = 16
-COQ_PAR = 6   # more concurrent coqc than this thrash in system time on this machine
+COQ_PAR = int(os.environ.get("VERIF_COQ_PAR", "6"))   # more concurrent coqc than this thrash in system time on this machine
 
 ALLOWED_AXIOMS = {
     # standard-library axioms that may appear; each is reported in the evidence when it does
